@@ -14,7 +14,7 @@ from __future__ import annotations
 import ast
 
 from . import terms as T
-from .evalr import Evaluator, Facts, FALL, Frame, _fixed_items, UNROLL_BOUND
+from .evalr import Evaluator, Facts, FALL, Frame, _fixed_items, UNROLL_BOUND, _elem_meta
 from .loader import AnalysisError, PKG
 
 MUT = {'append', 'extend', 'insert', 'pop', 'remove', 'clear', 'update', 'add', 'sort', 'reverse'}
@@ -123,7 +123,8 @@ def _target_names(t):
 
 
 class _Walker:
-    def __init__(self, program, module, fname, backend, shared):
+    def __init__(self, program, module, fname, backend, shared, param_types=()):
+        self.param_types = list(param_types)
         self.fi = program.get_function('%s.%s' % (module, fname))
         self.ev = Evaluator(program, backend, summaries=_summaries_for(program, module, fname, shared))
         self.qual = '%s.%s' % (module, fname)
@@ -131,7 +132,10 @@ class _Walker:
         self.nloops = 0
 
     def run(self):
-        env = {p: T.sym('$' + p) for p in self.fi.params}
+        env = {}
+        for i_, q in enumerate(self.fi.params):
+            ty = self.param_types[i_] if i_ < len(self.param_types) else None
+            env[q] = T.sym('$' + q, type=ty) if ty else T.sym('$' + q)
         recs, env, facts = self.walk(self.fi.node.body, env, Facts())
         return recs
 
@@ -194,7 +198,7 @@ class _Walker:
                 fr = Frame(self.fi, env_loop, facts, self.fi.module, self.fi.cls, 0)
                 if isinstance(s, ast.For):
                     it = self.ev.expr(s.iter, Frame(self.fi, dict(env), facts, self.fi.module, self.fi.cls, 0))
-                    self.ev.assign(s.target, T.sym('$E%d' % lid), fr)
+                    self.ev.assign(s.target, T.sym('$E%d' % lid, **_elem_meta(it)), fr)
                     head = ('for', it)
                 else:
                     head = ('while', T.truth(self.ev.expr(s.test, fr)))
@@ -214,16 +218,27 @@ class _Walker:
         return recs, env, facts
 
 
-def describe(program, module, fname, backend='ecdsa', shared=()):
-    w = _Walker(program, module, fname, backend, set(shared))
+def param_types_of(fi):
+    """declared types of the parameters (simple names only): the symbolic inputs of both sides carry them"""
+    ann = {a.arg: a.annotation for a in fi.node.args.args}
+    out = []
+    for q in fi.params:
+        t_ = ann.get(q)
+        out.append(t_.id if isinstance(t_, ast.Name) and t_.id in ('str', 'bytes', 'int', 'bool') else None)
+    return out
+
+
+def describe(program, module, fname, backend='ecdsa', shared=(), param_types=()):
+    w = _Walker(program, module, fname, backend, set(shared), param_types)
     fi = w.fi
     return fi, w.run(), [len(fi.params), sorted(ast.unparse(v) for v in fi.defaults.values())]
 
 
 def compare(ob, repo_prog, ref_prog, module, fname, same_term, backend='ecdsa'):
     shared = set(repo_prog.get_module(module).functions) & set(ref_prog.get_module(module).functions)
-    fi, a, sig_a = describe(repo_prog, module, fname, backend, shared)
-    _, b, sig_b = describe(ref_prog, module, fname, backend, shared)
+    pt = param_types_of(repo_prog.get_function('%s.%s' % (module, fname)))
+    fi, a, sig_a = describe(repo_prog, module, fname, backend, shared, pt)
+    _, b, sig_b = describe(ref_prog, module, fname, backend, shared, pt)
     where = fi.where
     ob.require(sig_a == sig_b, '%s: number of parameters and default values equal the reference' % fname, where,
                expected=sig_b, found=sig_a)
@@ -232,7 +247,10 @@ def compare(ob, repo_prog, ref_prog, module, fname, same_term, backend='ecdsa'):
     vocab = set()
     _vocab_of(b, vocab)
 
-    vocab.add('MINBYTES')
+    # connectives, arithmetic and indexing are everybody's vocabulary: a difference written with them alone is a different
+    # computation, not a re-expression in another idiom
+    vocab |= {'MINBYTES', 'NOT', 'AND', 'OR', 'EQ', 'LT', 'IS', 'BOOL', 'IN', 'ADD', 'SUB', 'MUL', 'FLOORDIV', 'MOD', 'LSHIFT', 'RSHIFT',
+              'BITAND', 'BITOR', 'BITXOR', 'LEN', 'GETITEM', 'SLICE', 'CAT', 'NEG', 'POW', 'ORD', 'INT', 'SER'}
 
     def st(ob_, found, expected, what, where_=None):
         return same_term(ob_, canon(found) if found is not None else None, canon(expected) if expected is not None else None,
@@ -272,6 +290,10 @@ def _minbytes(t):
     return None
 
 
+def _single_char(x):
+    return x is not None and T.tag(x) == 'sym' and T.sym_meta(x, 'type') == 'str' and T.sym_meta(x, 'len') == 1
+
+
 def canon(t, _memo=None):
     """idiom-level canonical form applied to both sides before comparing"""
     memo = {} if _memo is None else _memo
@@ -285,6 +307,20 @@ def canon(t, _memo=None):
         m = _minbytes(r)
         if m is not None:
             r = m
+        elif _single_char(r[3] if r[1] == 'INDEX' and len(r) == 4 else (r[2] if r[1] == 'IN' and len(r) == 4 else None)):
+            # membership / position of ONE character in a constant alphabet: a case analysis over its characters
+            if r[1] == 'IN' and T.is_const(r[3]) and isinstance(r[3][1], str) and 0 < len(r[3][1]) <= 64:
+                out = T.FALSE
+                for ch in r[3][1]:
+                    out = T.or_(out, T.eq(r[2], T.const(ch)))
+                r = out
+            elif r[1] == 'INDEX' and T.is_const(r[2]) and isinstance(r[2][1], str) and 0 < len(r[2][1]) <= 64:
+                out = T.raise_('ValueError')
+                seen = set()
+                for i_, ch in reversed(list(enumerate(r[2][1]))):
+                    if r[2][1].index(ch) == i_:
+                        out = T.phi(T.eq(r[3], T.const(ch)), T.const(i_), out)
+                r = out
     elif k == 'phi':
         r = T.phi(canon(t[1], memo), canon(t[2], memo), canon(t[3], memo))
     elif k in ('list', 'tuple'):
